@@ -15,7 +15,15 @@ def units(tier, seed):
     UNCOVERED[:] = unc
     from checks import foundation
     from checks import hello
-    return list(us) + [hello.unit(('K6', 'K3'), 'K6+K3')] + foundation.units(tier, seed)
+    # decoder side of the record/handshake headers: on every accepted buffer the consumed length is the length the RFC
+    # header declares (contracts/framing.py, written from the specifications), for every symbolic buffer
+    from checks import c03_k8, e1
+    from contracts.framing import DECLARED
+    hdr = [c03_k8.k8_unit(c) for c in common.select_classes(e1.binary_classes(), tier, 'K8')
+           if e1.is_framing(c) and c.__name__ in DECLARED and c.__module__ in MODULES]
+    for u in hdr:
+        u.name = 'header/' + u.name
+    return list(us) + hdr + [hello.unit(('K6', 'K3'), 'K6+K3')] + foundation.units(tier, seed)
 
 
 FINDING_REPLAYS = regions.finding_replays('C06')
